@@ -77,6 +77,13 @@ def write_history(history, header=b"%PDF-1.7\n%\xe2\xe3\xcf\xd3\n", tail=b"\n", 
                     comp[n] = (stm, i)
                 data = hdr + body
                 d = W.D(Type=W.N("ObjStm"), N=len(grp), First=len(hdr))
+                dmg = rev.get("objstm_damage")
+                if dmg and dmg.get("group", 0) == groups.index(grp):
+                    # a damaged object stream (C13): payload cut / dictionary entries replaced
+                    if "cut" in dmg:
+                        data = data[:dmg["cut"]]
+                    for key, val in dmg.get("dict", {}).items():
+                        d[key] = val
                 if rev.get("objstm_flate"):
                     data = zlib.compress(data)
                     d[b"Filter"] = W.N("FlateDecode")
